@@ -90,6 +90,10 @@ func c06Schemas() []*c06Schema {
 		Consts: map[string][]any{"a": {i(1), i(2)}, "s": {s(""), s("a"), s("aa"), s("ab"), s("b"), s("c")}},
 		Fixed: [][][]any{
 			{{i(1), s("")}, {i(2), s("a")}, {i(3), s("a")}, {i(4), s("it's")}, {i(5), s("a b")}},
+			// keys descending in insertion order, string lengths mixed: a multi-row UPDATE through the index on a
+			// visits the newest (physically lowest) row first; with SET s = 'mmmmmm' that row shrinks (it is
+			// relocated: delete-marked where it was) and an older row of the same page then grows in place
+			{{i(3), s("zz")}, {i(2), s("a")}, {i(1), s("abcdefgh")}, {i(0), s("")}},
 			{{i(1), s(long)}, {i(2), s(long + "x")}, {i(3), s(long)}, {i(4), s("z")}, {i(5), s(long)}, {i(6), s(long)}, {i(7), s(long)}, {i(8), s(long)}},
 		}}
 	// 14 wide rows = three heap pages (6+6+2 rows) and a multi-node index on s; a = 1 on the first page,
@@ -613,6 +617,13 @@ func c06DML(c *core.Ctx, sc *c06Schema, rows c06Content, leaves []Pred, dmlVals 
 	}
 	v0 := sc.Dom[cols[0].Name][0]
 	v1 := sc.Dom[cols[1].Name][len(sc.Dom[cols[1].Name])-1]
+	if cols[1].Type == TStr {
+		// a value of middle length: in one multi-row statement some rows shrink and others grow
+		for _, p := range ps {
+			stmts = append(stmts, &Stmt{Kind: "update", Table: "t", Set: []SetItem{{cols[1].Name, "mmmmmm"}}, Where: p})
+		}
+		stmts = append(stmts, &Stmt{Kind: "update", Table: "t", Set: []SetItem{{cols[1].Name, "mmmmmm"}}})
+	}
 	for _, p := range ps {
 		stmts = append(stmts,
 			&Stmt{Kind: "delete", Table: "t", Where: p},
